@@ -6,6 +6,7 @@ import Ovldverif.Model.JsonG
 import Ovldverif.Model.JsonH
 import Ovldverif.Model.Build
 import Ovldverif.Model.ClassBody
+import Ovldverif.Spec.ClassSpec
 import Ovldverif.Spec.Types
 import Ovldverif.Spec.Resolve
 /-! Line-protocol driver: one JSON scenario per input line, one JSON result per output line. -/
@@ -285,7 +286,18 @@ def runJ (j : Json) : Except String Json := do
       out := out.push (Json.mkObj [("o", outcomeToJson o), ("t", traceToJson t),
         ("exp", Json.mkObj [("o", outcomeToJson exp.1), ("t", traceToJson exp.2)])])
     | _ => out := out.push Json.null
+  -- the declarative specification (Spec/ClassSpec.lean) against the graph the class bodies produce
+  let g0 : Graph := Graph.runOps cfg {} st.ops
+  let effs := ClassBody.effAll ks
+  let ids (l : List (Def × Int)) : List (Nat × Int) := l.map (fun e => (e.1.d.id, e.2))
+  let specOK : List Bool := (List.range ks.length).map (fun i =>
+    match st.attr[i]?, effs[i]? with
+    | some ClassBody.Attr.none, some e => e.kind == .none
+    | some (ClassBody.Attr.plain d), some e => e.kind == .plain && (e.fn.map (·.d.id)) == some d.d.id
+    | some (ClassBody.Attr.node n fl), some e => e.kind == .ovld && e.flagged == fl && ids (g0.defns g0.depth n) == ids e.defns
+    | _, _ => false)
   return Json.mkObj [("attr", Json.arr (st.attr.map attrJ).toArray), ("nn", toJson st.nn), ("nops", toJson st.ops.length),
+    ("spec", toJson specOK),
     ("calls", Json.arr out)]
 
 /-- layer H: the model of `NameConverter` applied to an expression of the modelled subset -/
